@@ -235,6 +235,9 @@ func ruleC02(r *Report) {
 
 	checkReturned(r, m, "C02.returned")
 	checkClock(r, m, "C02.clock")
+	// the windows are windows over the instants the texts denote: the parse obligations of C15.ms, borrowed
+	r.Rule("C02.instants", "every instant a window is computed from is the instant its text denotes: each parse arm of RelaxedTime stores Round(Millisecond) of what time.Parse returned under err == nil, zone-less text is read as UTC, the layouts read any fraction (C15.ms, borrowed)", 3)
+	r.borrow("C15.ms", "C02.instants", func() { checkRelaxedTime(r, p) })
 }
 
 // checkReturned: C02.returned (also used by C01).
@@ -991,6 +994,15 @@ func ruleC04(r *Report) {
 	checkArtifactID(r, m, "C04.artifact-id")
 	checkMiddlewareIDs(r, m, "C04.middleware")
 	checkIDsForwarded(r, m, "C04.uses")
+	// the tracked requests the middleware takes its IDs from are authentic tracking tokens: the decode gates of the
+	// tracked-request codec (C17.marker), run here on behalf of this property — without the marker check a session
+	// token of the same SP decodes as a tracked request with an empty request ID
+	safely(r, func() {
+		checkDecodeGates(r, p, "C04.middleware", func(fn *ssa.Function) bool {
+			cs := claimsStructOf(p, fn)
+			return cs != nil && strings.Contains(cs.Obj().Name(), "TrackedRequest")
+		})
+	})
 }
 
 // checkIDsForwarded: inside the root package the set of outstanding request IDs is the caller's: wherever a function on
